@@ -69,6 +69,7 @@ func genCase(sc core.Scenario, job *Job, i int) (*core.Case, uint64) {
 // Summary is the aggregate a batch worker reports.
 type Summary struct {
 	Evaluations  int                 `json:"evaluations"`
+	Runs         int                 `json:"runs"`
 	Nontrivial   int                 `json:"nontrivial"`
 	Fingerprints []uint64            `json:"fingerprints"` // of nontrivial runs
 	EventFPs     []uint64            `json:"event_fps"`
@@ -168,7 +169,12 @@ func batch(t *testing.T, job *Job) {
 		c, tapeSeed := genCase(sc, job, i)
 		emit("begin", map[string]int{"run": i})
 		v := core.Execute(t, sc, c, true, tapeSeed, false)
-		sum.Evaluations++
+		if v.Evals > 0 {
+			sum.Evaluations += v.Evals
+		} else {
+			sum.Evaluations++
+		}
+		sum.Runs++
 		sum.Batches[c.Batch]++
 		if v.HarnessError != "" {
 			emit("harness-error", map[string]interface{}{"run": i, "error": v.HarnessError})
@@ -200,8 +206,15 @@ func batch(t *testing.T, job *Job) {
 			sum.InconReasons[v.Inconclusive]++
 		}
 		if v.Nontrivial {
-			sum.Nontrivial++
-			fps[v.Stats.Fingerprint] = true
+			if len(v.FPs) > 0 {
+				sum.Nontrivial += len(v.FPs)
+				for _, f := range v.FPs {
+					fps[f] = true
+				}
+			} else {
+				sum.Nontrivial++
+				fps[v.Stats.Fingerprint] = true
+			}
 		}
 		efps[v.Stats.EventFP] = true
 		if len(sum.Samples) < 2 && v.Nontrivial {
